@@ -288,6 +288,13 @@ def applyW (w : World) : Op → World × String
     (w, s!"oracle epoch={w.oracle.epoch} prices={showItems w.oracle.prices} holders={showItems w.oracle.holders} pvotes={joinWith "," w.oracle.priceVotes} hvotes={joinWith "," w.oracle.holderVotes}")
   | op => let (h, o) := apply w.hub op; ({ w with hub := h }, o)
 
+/-- `InitGenesis` with a hand-written genesis that carries outgoing transactions: the chain's sequence counter is set to the
+    exported value `s` first, then `SetOutgoingTx` stamps every listed transaction with the next number.  Returns the stamped
+    list and the final counter. -/
+def importStamps : Nat → List α → List (α × Nat) × Nat
+  | s, [] => ([], s)
+  | s, x :: xs => let r := importStamps (s + 1) xs; ((x, s + 1) :: r.1, r.2)
+
 /-- Pure queries that do not touch the state (checkpoint digests, ABI encodings). -/
 def pureQuery : List String → Option String
   | ["ckpt_set", gid, nonce, members] => do
@@ -296,6 +303,9 @@ def pureQuery : List String → Option String
     match checkpointSignerSet gid n ms with
     | some d => some (hexOfBytes d)
     | none => some "panic"
+  | ["import_stamped", seq, n] => do
+    let r := importStamps (← seq.toNat?) (List.range (← n.toNat?))
+    some s!"stamps {joinWith "," (r.1.map fun p => toString p.2)} counter {r.2}"
   | ["ckpt_batch", gid, nonce, timeout, token, txs] => do
     let n ← nonce.toNat?
     let t ← timeout.toNat?
